@@ -18,10 +18,11 @@ Proved for ALL valid units systems (hence all 11×10×10), all dimensions, all v
   units, and so does a trajectory of any fixed number of steps (induction);
 * `output_units_only_scale` : expressing a result in another system multiplies it by a positive factor that depends only
   on the two systems and the dimension.
-PARTIAL: the lifting of the level-wise re-scaling lemmas through `buildSystem` (network + space + default state, i.e.
-`si_rescale_state` for whole descriptions) is not proved as one theorem; it is exercised by the correspondence
-`build_system` on both members of every generated pair and by the pairwise oracle on the real code.  The Euler
-commutation is proved for graphs (grids need the geometry hypothesis of C01).
+Round 2: `si_rescale_state` / `si_rescale_rate` / `si_declare_system` lift the level lemmas through `buildSystem` for whole
+descriptions (network, species, reactions, grid or graph space with nodes and edges, explicit state list, default state and
+chemostat map): the re-scaled description builds the SAME SI system, or raises exactly when the original does.  The Euler
+commutation is proved for graphs and (round 2) for every valid grid (`euler_step_commutes_with_conv_grid`,
+`euler_traj_units_invariant_grid`).
 -/
 import Strengths.Model.Build
 import Strengths.Props.C01
@@ -144,6 +145,190 @@ script; at the script an absent key gives the default system -/
 theorem inheritance_rules (P : Sys) :
     resolveUnits .absent false P = .ok P ∧ resolveUnits .inherit false P = .ok P ∧ resolveUnits .dflt false P = .ok Sys.default ∧
     resolveUnits .absent true P = .ok Sys.default ∧ resolveUnits .inherit true P = .ok P := ⟨rfl, rfl, rfl, rfl, rfl⟩
+
+/-! ## Whole descriptions (lifting through `buildSystem`) -/
+
+/-- does a level take its units system from its parent? -/
+def inherits : UDecl → Bool
+  | .absent => true
+  | .inherit => true
+  | _ => false
+
+theorem resolve_inherits {u : UDecl} (h : inherits u = true) (P : Sys) : resolveUnits u false P = .ok P := by
+  cases u <;> simp [inherits] at h <;> rfl
+
+theorem resolve_own {u : UDecl} (h : inherits u = false) (P P' : Sys) : resolveUnits u false P' = resolveUnits u false P := by
+  cases u <;> simp [inherits] at h <;> rfl
+
+/-! ### Spec: re-expressing a whole description when the parent's units system changes from `U` to `U'`:
+every level that inherits re-scales its own bare numbers and passes the change on; a level that declares its own system
+(and everything below it) is left untouched -/
+
+def rescaleSpeciesL (U U' : Sys) (d : SpeciesD) : SpeciesD := if inherits d.units then rescaleSpecies U U' d else d
+def rescaleReactionL (U U' : Sys) (d : ReactionD) : ReactionD := if inherits d.units then rescaleReaction U U' d else d
+
+def rescaleNode (U U' : Sys) (d : NodeD) : NodeD :=
+  if inherits d.units then { d with vol := some (rescaleNum U U' Dim.volume (optNum d.vol)) } else d
+
+def rescaleEdge (U U' : Sys) (d : EdgeD) : EdgeD :=
+  if inherits d.units then { d with sfc := some (rescaleNum U U' Dim.surface (optNum d.sfc)),
+                                    dst := some (rescaleNum U U' Dim.length (optNum d.dst)) } else d
+
+def rescaleSpace (U U' : Sys) : SpaceD → SpaceD
+  | .grid u g env vol => if inherits u then .grid u g env (some (rescaleNum U U' Dim.volume (optNum vol))) else .grid u g env vol
+  | .graph u nodes edges =>
+    if inherits u then .graph u (nodes.map (rescaleNode U U')) (edges.map (rescaleEdge U U')) else .graph u nodes edges
+
+def rescaleNet (U U' : Sys) (d : NetD) : NetD :=
+  if inherits d.units then { d with species := d.species.map (rescaleSpeciesL U U'), reactions := d.reactions.map (rescaleReactionL U U') }
+  else d
+
+def rescaleSystem (U U' : Sys) (d : SystemD) : SystemD :=
+  if inherits d.units then
+    { d with net := rescaleNet U U' d.net, space := rescaleSpace U U' d.space,
+             state := d.state.map fun l => l.map (rescaleVal U U' Dim.quantity) }
+  else d
+
+theorem mapRes_map {α β γ : Type} (f : β → Res γ) (f' : α → Res γ) (g : α → β) (l : List α) (h : ∀ a ∈ l, f (g a) = f' a) :
+    mapRes f (l.map g) = mapRes f' l := by
+  induction l with
+  | nil => rfl
+  | cons a as ih =>
+    simp only [List.map_cons, mapRes, h a (List.mem_cons_self), ih (fun b hb => h b (List.mem_cons_of_mem _ hb))]
+
+theorem speciesL_rescale (U U' : Sys) (hU' : U'.valid = true) (d : SpeciesD) :
+    buildSpecies U' (rescaleSpeciesL U U' d) = buildSpecies U d := by
+  unfold rescaleSpeciesL
+  cases hi : inherits d.units
+  · simp only [Bool.false_eq_true, if_false]
+    unfold buildSpecies
+    rw [resolve_own hi U U']
+  · simp only [if_true]
+    apply species_rescale_inherited U U' hU' d
+    cases hu : d.units <;> simp [hu, inherits] at hi <;> simp
+
+theorem reactionL_rescale (U U' : Sys) (hU' : U'.valid = true) (d : ReactionD) :
+    buildReaction U' (rescaleReactionL U U' d) = buildReaction U d := by
+  unfold rescaleReactionL
+  cases hi : inherits d.units
+  · simp only [Bool.false_eq_true, if_false]
+    unfold buildReaction
+    rw [resolve_own hi U U']
+  · simp only [if_true]
+    apply reaction_rescale_inherited U U' hU' d
+    cases hu : d.units <;> simp [hu, inherits] at hi <;> simp
+
+theorem space_rescale (U U' : Sys) (hU' : U'.valid = true) (edges : List Rat) (d : SpaceD) :
+    buildSpace U' edges (rescaleSpace U U' d) = buildSpace U edges d := by
+  cases d with
+  | grid u g env vol =>
+    unfold rescaleSpace
+    cases hi : inherits u
+    · simp only [hi, Bool.false_eq_true, if_false, buildSpace, resolve_own hi U U']
+    · simp only [hi, if_true, buildSpace, resolve_inherits hi, optNum, Option.getD_some, bare_rescale U U' hU']
+  | graph u nodes es =>
+    unfold rescaleSpace
+    cases hi : inherits u
+    · simp only [hi, Bool.false_eq_true, if_false, buildSpace, resolve_own hi U U']
+    · simp only [hi, if_true, buildSpace, resolve_inherits hi, List.length_map]
+      have hn : mapRes (buildNode U' edges) ((nodes.map (rescaleNode U U')).zip (List.range nodes.length))
+          = mapRes (buildNode U edges) (nodes.zip (List.range nodes.length)) := by
+        rw [List.zip_map_left]
+        apply mapRes_map
+        intro p _
+        obtain ⟨nd, k⟩ := p
+        simp only [Prod.map, id, buildNode]
+        unfold rescaleNode
+        cases hin : inherits nd.units
+        · simp only [hin, Bool.false_eq_true, if_false, resolve_own hin U U']
+        · simp only [hin, if_true, resolve_inherits hin, optNum, Option.getD_some, bare_rescale U U' hU']
+      have he : mapRes (buildEdge U') (es.map (rescaleEdge U U')) = mapRes (buildEdge U) es := by
+        apply mapRes_map
+        intro ed _
+        simp only [buildEdge]
+        unfold rescaleEdge
+        cases hin : inherits ed.units
+        · simp only [hin, Bool.false_eq_true, if_false, resolve_own hin U U']
+        · simp only [hin, if_true, resolve_inherits hin, optNum, Option.getD_some, bare_rescale U U' hU']
+      rw [hn, he]
+
+theorem net_rescale (U U' : Sys) (hU' : U'.valid = true) (d : NetD) :
+    buildNet U' (rescaleNet U U' d) = buildNet U d := by
+  unfold rescaleNet buildNet
+  cases hi : inherits d.units
+  · simp only [hi, Bool.false_eq_true, if_false, resolve_own hi U U']
+  · simp only [hi, if_true, resolve_inherits hi,
+      mapRes_map (buildSpecies U') (buildSpecies U) _ d.species (fun a _ => speciesL_rescale U U' hU' a),
+      mapRes_map (buildReaction U') (buildReaction U) _ d.reactions (fun a _ => reactionL_rescale U U' hU' a)]
+
+theorem state_rescale (U U' : Sys) (hU' : U'.valid = true) (st : Option (List Rat)) (dflt : List Rat) :
+    stateOfDesc U' (st.map fun l => l.map (rescaleVal U U' Dim.quantity)) dflt = stateOfDesc U st dflt := by
+  cases st with
+  | none => rfl
+  | some l =>
+    simp only [stateOfDesc, Option.map_some, List.map_map]
+    apply List.map_congr_left
+    intro v _
+    simp only [Function.comp, Q.ofU, rescaleVal]
+    have := siFactor_ne hU' Dim.quantity
+    field_simp
+
+/-- **si_rescale_state** — a whole description re-expressed for another parent units system (`rescaleSystem U U'`: every level
+that inherits re-scales its own bare numbers — omitted ones included, they are bare defaults — and levels with their own
+declaration are untouched) builds the SAME SI system and the SAME SI state (initial amounts, chemostat map, volumes, rate
+constants, diffusion coefficients, surfaces, distances), or raises exactly when the original does; for all valid `U'` -/
+theorem si_rescale_state (U U' : Sys) (hU' : U'.valid = true) (edges : List Rat) (d : SystemD) :
+    buildSystem U' edges (rescaleSystem U U' d) = buildSystem U edges d := by
+  unfold rescaleSystem
+  cases hi : inherits d.units
+  · simp only [hi, Bool.false_eq_true, if_false]
+    unfold buildSystem
+    rw [resolve_own hi U U']
+  · simp only [hi, if_true]
+    unfold buildSystem
+    simp only [resolve_inherits hi, net_rescale U U' hU', space_rescale U U' hU']
+    have hnet : (rescaleNet U U' d.net).envs = d.net.envs := by
+      unfold rescaleNet; split <;> rfl
+    simp only [hnet]
+    cases buildNet U d.net with
+    | error e => rfl
+    | ok p =>
+      obtain ⟨sp, rs⟩ := p
+      simp only
+      split
+      · rfl
+      · cases buildSpace U edges d.space with
+        | error e => rfl
+        | ok space =>
+          simp only [assemble, hnet, state_rescale U U' hU']
+
+/-- **si_rescale_rate** — consequently everything computed from the built system is unchanged: in particular the rate of
+change returned by the kinetics model for every entry (and any trajectory computed from it) -/
+theorem si_rescale_rate (U U' : Sys) (hU' : U'.valid = true) (edges : List Rat) (d : SystemD) (b b' : Built)
+    (h : buildSystem U edges d = .ok b) (h' : buildSystem U' edges (rescaleSystem U U' d) = .ok b') (s i : Nat) (ac : Bool) :
+    pyDspeciesdt b'.sys s i ⟨b'.state, Dim.quantity⟩ ac = pyDspeciesdt b.sys s i ⟨b.state, Dim.quantity⟩ ac := by
+  rw [si_rescale_state U U' hU'] at h'
+  rw [h] at h'
+  cases h'
+  rfl
+
+/-- a system reads its parent only through the units system its "units" key resolves to -/
+theorem buildSystem_of_resolve (P U : Sys) (edges : List Rat) (d : SystemD) (hU : resolveUnits d.units false P = .ok U) :
+    buildSystem P edges d = buildSystem U edges { d with units := .inherit } := by
+  unfold buildSystem
+  rw [hU]
+  rfl
+
+/-- the same when the system level DECLARES a new system σ (instead of what it resolved to before, `U`): declaring σ and
+re-scaling everything that takes its units from the system level builds the same SI system under ANY parent -/
+theorem si_declare_system (P P' U σ : Sys) (hσ : σ.valid = true) (l : List (String × String)) (hl : sysFromDict l = .ok σ)
+    (edges : List Rat) (d : SystemD) (hU : resolveUnits d.units false P = .ok U) :
+    buildSystem P' edges { rescaleSystem U σ { d with units := .inherit } with units := .dict l } = buildSystem P edges d := by
+  have h1 : resolveUnits (.dict l) false P' = .ok σ := hl
+  rw [buildSystem_of_resolve P' σ edges _ h1, buildSystem_of_resolve P U edges d hU]
+  have h2 := si_rescale_state U σ hσ edges { d with units := .inherit }
+  rw [← h2]
+  rfl
 
 /-! ## The rate law is homogeneous of dimension amount/time -/
 
@@ -329,6 +514,113 @@ theorem euler_traj_units_invariant (a b c : Rat) (ha : a ≠ 0) (hb : b ≠ 0) (
       exact euler_step_commutes_with_conv a b c ha hb hc P nEnv edges chem x dt i s hV hfaces
     rw [hstep]
     exact ih _ i s
+
+/-! ## The same on grids (unconditional since the grid theorems of C01 are) -/
+
+theorem scaled_grid_faces (a h : Rat) (ha : a ≠ 0) (w hh d : Nat) (px py pz : Bool) (i : Nat) :
+    gridFaces w hh d px py pz (h / a) i
+      = (gridFaces w hh d px py pz h i).map fun f => ⟨f.nbr, f.sfc / a ^ 2, f.dst / a⟩ := by
+  unfold gridFaces
+  rw [List.map_map]
+  apply List.map_congr_left
+  intro j _
+  simp only [Function.comp, Face.mk.injEq, true_and]
+  constructor
+  · field_simp
+  · trivial
+
+/-- one Euler step on any valid grid in the scaled units is the scaled Euler step -/
+theorem euler_step_commutes_with_conv_grid (a b c : Rat) (ha : a ≠ 0) (hb : b ≠ 0) (hc : c ≠ 0) (P : Phys) (nEnv : Nat)
+    (g : GridShape) (h : Rat) (chem : Nat → Nat → Bool) (x : State) (dt : Rat) (i s : Nat)
+    (hv : g.valid = true) (hi : i < g.size) (hh : h ≠ 0) (hvol : ∀ j, P.vol j = h ^ 3) (hedge : ∀ j, P.edge j = h)
+    (hfaces : P.faces i = gridFaces g.w g.h g.d g.px g.py g.pz h i) :
+    (eulerStep (engOfPhysGrid (scalePhys a b c P) nEnv g (h / a) chem) (dt / b) (scaleState c x)) i s
+      = (scaleState c (eulerStep (engOfPhysGrid P nEnv g h chem) dt x)) i s := by
+  by_cases hch : chem i s = true
+  · rw [C03.euler_step_fixes_flagged _ _ _ i s hch]
+    show x.get i s / c = (eulerStep (engOfPhysGrid P nEnv g h chem) dt x).get i s / c
+    rw [C03.euler_step_fixes_flagged _ _ _ i s hch]
+  · have hcf : chem i s = false := by simpa using hch
+    have hV : ∀ j, P.vol j ≠ 0 := fun j => by rw [hvol]; exact pow_ne_zero 3 hh
+    have hha : h / a ≠ 0 := div_ne_zero hh ha
+    have hvol' : ∀ j, (scalePhys a b c P).vol j = (h / a) ^ 3 := fun j => by
+      show P.vol j / a ^ 3 = _
+      rw [hvol, div_pow]
+    have hedge' : ∀ j, (scalePhys a b c P).edge j = h / a := fun j => by
+      show P.edge j / a = _
+      rw [hedge]
+    have hf' : (scalePhys a b c P).faces i = gridFaces g.w g.h g.d g.px g.py g.pz (h / a) i := by
+      rw [scaled_grid_faces a h ha]
+      show (P.faces i).map _ = _
+      rw [hfaces]
+    rw [C01.euler_step_grid_all (scalePhys a b c P) nEnv g (h / a) chem (scaleState c x) (dt / b) i s hv hi hha hvol' hedge' hf' hcf]
+    show x.get i s / c + dt / b * rate (scalePhys a b c P) (fun i s => x.get i s / c) s i
+      = (eulerStep (engOfPhysGrid P nEnv g h chem) dt x).get i s / c
+    rw [rate_homogeneous a b c ha hb hc P x.get s i hV,
+      C01.euler_step_grid_all P nEnv g h chem x dt i s hv hi hh hvol hedge hfaces hcf]
+    field_simp
+
+/-- trajectories on any valid grid: after any fixed number of steps the state computed in the scaled units is the scaled
+state (entries of the grid's cells) -/
+theorem euler_traj_units_invariant_grid (a b c : Rat) (ha : a ≠ 0) (hb : b ≠ 0) (hc : c ≠ 0) (P : Phys) (nEnv : Nat)
+    (g : GridShape) (h : Rat) (chem : Nat → Nat → Bool) (dt : Rat)
+    (hv : g.valid = true) (hh : h ≠ 0) (hvol : ∀ j, P.vol j = h ^ 3) (hedge : ∀ j, P.edge j = h)
+    (hfaces : ∀ i, i < g.size → P.faces i = gridFaces g.w g.h g.d g.px g.py g.pz h i) (n : Nat) (x y : State)
+    (hxy : ∀ i s, i < g.size → y i s = x i s / c) :
+    ∀ i s, i < g.size →
+      (C03.eulerIter (engOfPhysGrid (scalePhys a b c P) nEnv g (h / a) chem) (dt / b) n y) i s
+        = (C03.eulerIter (engOfPhysGrid P nEnv g h chem) dt n x) i s / c := by
+  induction n generalizing x y with
+  | zero => intro i s hi; exact hxy i s hi
+  | succ n ih =>
+    intro i s hi
+    simp only [C03.eulerIter]
+    apply ih
+    intro i' s' hi'
+    -- one step from states that agree on the grid's cells: the step of cell i' reads only cells of the grid
+    have hstep := euler_step_commutes_with_conv_grid a b c ha hb hc P nEnv g h chem x dt i' s' hv hi' hh hvol hedge (hfaces i' hi')
+    have hloc : (eulerStep (engOfPhysGrid (scalePhys a b c P) nEnv g (h / a) chem) (dt / b) y) i' s'
+        = (eulerStep (engOfPhysGrid (scalePhys a b c P) nEnv g (h / a) chem) (dt / b) (scaleState c x)) i' s' := by
+      by_cases hch : chem i' s' = true
+      · rw [C03.euler_step_fixes_flagged _ _ _ i' s' hch, C03.euler_step_fixes_flagged _ _ _ i' s' hch]
+        exact hxy i' s' hi'
+      · have hcf : chem i' s' = false := by simpa using hch
+        have hV' : ∀ j, (scalePhys a b c P).vol j = (h / a) ^ 3 := fun j => by
+          show P.vol j / a ^ 3 = _
+          rw [hvol, div_pow]
+        have hE' : ∀ j, (scalePhys a b c P).edge j = h / a := fun j => by
+          show P.edge j / a = _
+          rw [hedge]
+        have hF' : (scalePhys a b c P).faces i' = gridFaces g.w g.h g.d g.px g.py g.pz (h / a) i' := by
+          rw [scaled_grid_faces a h ha]
+          show (P.faces i').map _ = _
+          rw [hfaces i' hi']
+        have hha : h / a ≠ 0 := div_ne_zero hh ha
+        rw [C01.euler_step_grid_all _ nEnv g (h / a) chem y (dt / b) i' s' hv hi' hha hV' hE' hF' hcf,
+          C01.euler_step_grid_all _ nEnv g (h / a) chem (scaleState c x) (dt / b) i' s' hv hi' hha hV' hE' hF' hcf]
+        -- the rate at cell i' depends on the state at i' and at its neighbours, all cells of the grid
+        have hrate : rate (scalePhys a b c P) y.get s' i' = rate (scalePhys a b c P) (scaleState c x).get s' i' := by
+          unfold rate reactionPart diffusionPart massAction conc
+          have hself : ∀ s'', y.get i' s'' = (scaleState c x).get i' s'' := fun s'' => hxy i' s'' hi'
+          have hnb : ∀ f ∈ (scalePhys a b c P).faces i', ∀ s'', y.get f.nbr s'' = (scaleState c x).get f.nbr s'' := by
+            intro f hf s''
+            rw [hF'] at hf
+            simp only [gridFaces, List.mem_map] at hf
+            obtain ⟨j, hj, rfl⟩ := hf
+            rw [← engine_slots_are_spec_nbrs hv hi'] at hj
+            simp only [List.mem_filterMap, List.mem_range] at hj
+            obtain ⟨nn, hnn, hget⟩ := hj
+            exact hxy j s'' (nbr_involutive hv hi' hnn hget).2
+          simp only [hself]
+          congr 1
+          apply sumL_congr
+          intro f hf
+          rw [hnb f hf s']
+        rw [hrate, hxy i' s' hi']
+        rfl
+    rw [hloc, hstep]
+    rfl
+    exact hi
 
 /-! ## Output units -/
 
